@@ -54,6 +54,27 @@ func (r RemoveIntersections) processSchema(v *Visitor, schema *ast.Schema) (*ast
 		return nil, foundErr
 	}
 
+	// the references found anywhere else — the items of a list, the values of a map,
+	// the branches of a union — follow the objects that are removed as well
+	redirect := &Visitor{OnRef: r.redirectReference, OnConstantRef: r.redirectConstantReference}
+	schema.Objects.Iterate(func(key string, object ast.Object) {
+		if foundErr != nil {
+			return
+		}
+
+		redirected, err := redirect.VisitObject(schema, object)
+		if err != nil {
+			foundErr = err
+			return
+		}
+
+		schema.Objects.Set(key, redirected)
+	})
+
+	if foundErr != nil {
+		return nil, foundErr
+	}
+
 	// the entry point follows the object that replaces the one it designates
 	if replacement, removed := r.replacementOf(schema.EntryPoint); removed {
 		if array, isArray := r.arraysToFix[schema.EntryPoint]; isArray {
@@ -110,6 +131,54 @@ func (r RemoveIntersections) processObject(_ *Visitor, schema *ast.Schema, objec
 	// TODO: Check if a reference extends from a Map if necessary
 
 	return object, nil
+}
+
+// redirectReference points a reference to a removed object to what replaces it:
+// the object that took its fields, or the list it stood for.
+func (r RemoveIntersections) redirectReference(visitor *Visitor, schema *ast.Schema, def ast.Type) (ast.Type, error) {
+	ref := def.AsRef()
+	if ref.ReferredPkg != schema.Package {
+		return def, nil
+	}
+
+	var newType ast.Type
+	if array, isArray := r.arraysToFix[ref.ReferredType]; isArray && array.Type.IsArray() {
+		newType = ast.NewArray(array.Type.AsArray().ValueType.DeepCopy())
+	} else if replacement, removed := r.replacementOf(ref.ReferredType); removed && replacement.Name != ref.ReferredType {
+		newType = ast.NewRef(replacement.SelfRef.ReferredPkg, replacement.SelfRef.ReferredType)
+	} else {
+		return def, nil
+	}
+
+	// only what is designated changes
+	newType.Nullable = def.Nullable
+	newType.Default = def.Default
+	newType.PassesTrail = def.PassesTrail
+	for hint, value := range def.Hints {
+		newType.Hints[hint] = value
+	}
+
+	// the items of a list can refer to removed objects too
+	if newType.IsArray() {
+		return visitor.VisitType(schema, newType)
+	}
+
+	return newType, nil
+}
+
+// redirectConstantReference does the same for the references to a member of an enum.
+func (r RemoveIntersections) redirectConstantReference(_ *Visitor, schema *ast.Schema, def ast.Type) (ast.Type, error) {
+	constantRef := def.AsConstantRef()
+	if constantRef.ReferredPkg != schema.Package {
+		return def, nil
+	}
+
+	if replacement, removed := r.replacementOf(constantRef.ReferredType); removed && replacement.Name != constantRef.ReferredType {
+		def = def.DeepCopy()
+		def.ConstantReference.ReferredType = replacement.SelfRef.ReferredType
+	}
+
+	return def, nil
 }
 
 // replacementOf returns the object that replaces a removed one. The replacement
